@@ -83,6 +83,67 @@ func runC34(c *core.Ctx) {
 				}
 			}
 		})
+		// valueOK: the stored value is known not to be below the minimum where it is stored: it is the sum, the
+		// disabling constant, a value the dominating test found not below the sum, or a local chosen between
+		// such values (`forced := round; if sum > forced { forced = sum }`: each incoming edge is one case)
+		disabledKey := ""
+		if k := c.P.Const(pkg, "disabledRoundForForceEpochStart"); k != nil {
+			disabledKey = k.Val().ExactString()
+		}
+		notBelowSum := func(v ssa.Value, conds []core.Cond) bool {
+			key := core.ExprKey(v)
+			if key == sumKey || (disabledKey != "" && key == disabledKey) {
+				return true
+			}
+			for _, cd := range conds {
+				f := core.FactOf(cd)
+				if (f.Op == "<=" || f.Op == "<") && f.A == sumKey && f.B == key {
+					return true
+				}
+			}
+			return false
+		}
+		valueOK := func(st *ssa.Store) (good, clamps bool) {
+			if notBelowSum(st.Val, core.CondsAt(st.Block())) {
+				return true, false
+			}
+			ph, isPhi := st.Val.(*ssa.Phi)
+			if !isPhi {
+				return false, false
+			}
+			good = true
+			for i, pred := range ph.Block().Preds {
+				var conds []core.Cond
+				for si, sb := range pred.Succs {
+					if sb == ph.Block() {
+						conds = core.CondsOnEdge(pred, si)
+						break
+					}
+				}
+				if !notBelowSum(ph.Edges[i], conds) {
+					good = false
+				}
+				if core.ExprKey(ph.Edges[i]) == sumKey {
+					for _, cd := range conds {
+						if f := core.FactOf(cd); f.Op == "<" && f.B == sumKey {
+							for j, o := range ph.Edges {
+								if j != i && core.ExprKey(o) == f.A {
+									clamps = true
+								}
+							}
+						}
+					}
+				}
+			}
+			return good, good && clamps
+		}
+		core.Instrs(fn, func(in ssa.Instruction) {
+			if st, isSt := in.(*ssa.Store); isSt && isRecvFieldAddr(fn, st.Addr, "nextEpochStartRound") {
+				if _, clamps := valueOK(st); clamps {
+					ok = true
+				}
+			}
+		})
 		c.Check(ok, "C34/forced-start-clamped", "trigger.ForceEpochStart", fn.Pos(), "a too-early forced round is replaced by currEpochStartRound+minRoundsBetweenEpochs",
 			"no branch `nextEpochStartRound < currEpochStartRound+minRoundsBetweenEpochs` that clamps the forced round to that sum: an epoch can be forced to start before the minimum number of rounds")
 		// whatever value is stored as the forced round, every way out of the function passes the clamp
@@ -113,6 +174,10 @@ func runC34(c *core.Ctx) {
 				return
 			}
 			k++
+			if good, _ := valueOK(st); good {
+				c.Pass("C34/forced-start-clamped", fmt.Sprintf("trigger.ForceEpochStart/store#%d-reaches-exit-clamped", k), st.Pos(), "the value assigned is known not to be below the minimum where it is stored")
+				return
+			}
 			esc, path := core.PathQ{Fn: fn, From: in, Via: isFinal, ViaEdge: notBelow, Target: core.AnyReturn}.Escape()
 			c.Check(esc == nil, "C34/forced-start-clamped", fmt.Sprintf("trigger.ForceEpochStart/store#%d-reaches-exit-clamped", k), st.Pos(),
 				"after this assignment of the forced round every exit lies behind the minimum test, the clamp or the disabling store",
@@ -174,6 +239,31 @@ func runC34(c *core.Ctx) {
 			for b := range reachSt {
 				if ifi, ok := b.Instrs[len(b.Instrs)-1].(*ssa.If); ok && b != st.Block() {
 					condVals = append(condVals, ifi.Cond)
+				}
+			}
+			// a condition decided by a method of the trigger (`if !t.shouldStart(nonce) { return }`): what that
+			// method branches on and answers is part of the condition
+			for _, cv := range append([]ssa.Value(nil), condVals...) {
+				for v := range core.BackwardReach(cv) {
+					call, isCall := v.(*ssa.Call)
+					if !isCall || call.Call.StaticCallee() == nil || call.Call.StaticCallee().Blocks == nil || call.Call.StaticCallee().Pkg != fn.Pkg || call.Call.StaticCallee().Signature.Recv() == nil {
+						continue
+					}
+					h := call.Call.StaticCallee()
+					if len(call.Call.Args) == 0 || call.Call.Args[0] != ssa.Value(fn.Params[0]) {
+						continue
+					}
+					c.Analysed(fname(h))
+					for _, hb := range h.Blocks {
+						switch last := hb.Instrs[len(hb.Instrs)-1].(type) {
+						case *ssa.If:
+							condVals = append(condVals, last.Cond)
+						case *ssa.Return:
+							if len(last.Results) == 1 {
+								condVals = append(condVals, last.Results[0])
+							}
+						}
+					}
 				}
 			}
 			for _, cv := range condVals {
